@@ -148,9 +148,13 @@ class SymInputs(_Base):
         self.vars[name] = ("str", terms)
         for t in terms:
             if kind == "valid":
-                self.ctx.add(z3.And(enc_ok_e(t), t != 0))
+                for cnd in (enc_ok_e(t), z3.simplify(t != 0)):
+                    self.ctx.add(cnd)
+                    self.ctx.remember(cnd, True)
             elif kind == "nonul":
-                self.ctx.add(z3.And(z3.ULT(t, 0x110000), t != 0))
+                for cnd in (z3.ULT(t, 0x110000), z3.simplify(t != 0)):
+                    self.ctx.add(cnd)
+                    self.ctx.remember(cnd, True)
             else:
                 self.ctx.add(z3.ULT(t, 0x110000))
         if not terms:
@@ -213,6 +217,12 @@ class SymInputs(_Base):
 
     def concrete(self, x) -> bool:
         return not isinstance(x, (SBool, E.SymIntBase, SFloat, SBytes, SStr))
+
+    def truth(self, x) -> bool:
+        """Concrete truth value of a condition on this path (forks if undecided)."""
+        if isinstance(x, bool):
+            return x
+        return E.branch(E.as_z3_bool(x))
 
     # -- assertions ------------------------------------------------------------------------
     def prove(self, label: str, cond, note: str = "") -> bool:
@@ -629,6 +639,9 @@ class ConcInputs(_Base):
 
     def concrete(self, x) -> bool:
         return True
+
+    def truth(self, x) -> bool:
+        return _cb(x)
 
     def prove(self, label: str, cond, note: str = "") -> bool:
         if isinstance(cond, (list, tuple)):
